@@ -10,7 +10,9 @@ from pyvc.calls import is_type_obj
 from contracts.common import *  # noqa
 from contracts.common import _defaults_exist
 from contracts import history as H
-from contracts.config import (F, bfields, bsig, BInv, BFields, MetaObj, fresh_copies, oa_has, oa_value)
+from contracts.config import (F, bfields, bsig, BInv, BFields, MetaObj, fresh_copies, oa_has, oa_value,
+                              oa_keys)
+from pyvc.expr import dkeys_cnt, dkeys_seq
 
 FS = 'fiddle/_src/signatures.py'
 
@@ -125,6 +127,11 @@ def flatten_post(c, bv, values, meta, inc_def):
       is_VRef(names), ref(names) >= h0.alloc, ref(names) < h.alloc, cls_is(h.cls(ref(names)), 'tuple'),
       ref(names) != ref(values),
       h.len(ref(values)) == n,
+      # the names come in the iteration order of ordered_arguments(...) (see oa_keys)
+      n == dkeys_cnt(oa_keys(g, has0, t, inc_def, f, t)),
+      FA([z3.Int('fo_i')], z3.Implies(z3.And(0 <= z3.Int('fo_i'), z3.Int('fo_i') < n),
+                                      N[z3.Int('fo_i')] == dkeys_seq(oa_keys(g, has0, t, inc_def, f, t))[z3.Int('fo_i')]),
+         patterns=[N[z3.Int('fo_i')]]),
       enumerates(N, V, n, full, lambda key: oa_value(g, has0, val0, key)),
       z3.Implies(z3.Not(inc_def),
                  enumerates(N, V, n, lambda key: has0[key], lambda key: val0[key])),
@@ -368,3 +375,79 @@ def _edit_original_lemma(fn, with_value, tags):
 
 _edit_original_lemma('edit_original_setattr', True, True)
 _edit_original_lemma('edit_original_delattr', False, False)
+
+
+# --- _buildable_path_elements (C08) and the path-soundness lemma ---------------------------------------
+def path_elements_post(c, bv, res, inc_def):
+  """res is a fresh tuple with one fresh path element per ordered argument, in iteration order:
+  Attr(name) for a str key, Index(i) for an int key."""
+  h0, h = c.old, c.heap
+  g = bsig(h0, bv)
+  has0 = h0.hasarr(ref(bfields(h0, bv)[1]))
+  t, f = z3.BoolVal(True), z3.BoolVal(False)
+  K = oa_keys(g, has0, t, inc_def, f, t)
+  n = dkeys_cnt(K)
+  r = ref(res)
+  i = z3.Int('pe_i')
+  e = lambda ix: h.elt(r, ix)
+  key = lambda ix: dkeys_seq(K)[ix]
+  return z3.And(
+      is_VRef(res), r >= h0.alloc, cls_is(h.cls(r), 'tuple'), h.len(r) == n, n >= 0,
+      FA([i], z3.Implies(z3.And(0 <= i, i < n), z3.And(
+          is_VRef(e(i)), ref(e(i)) >= h0.alloc, ref(e(i)) < h.alloc,
+          z3.If(is_VStr(key(i)),
+                z3.And(cls_is(h.cls(ref(e(i))), 'Attr'), h.fld(ref(e(i)), 'name') == key(i)),
+                z3.And(cls_is(h.cls(ref(e(i))), 'Index'), h.fld(ref(e(i)), 'index') == key(i))))),
+         patterns=[e(i)]))
+
+
+contract(
+    'config._buildable_path_elements', F, '_buildable_path_elements',
+    requires=lambda c: z3.And(BInv(c.old, c['buildable']), is_VBool(c['include_defaults'])),
+    ensures=lambda c: path_elements_post(c, c['buildable'], c.result, bval(c['include_defaults'])),
+    defaults={'include_defaults': VBool(z3.BoolVal(False))},
+    writes=('name', 'index'),
+    props=('C08',),
+    note='one fresh path element per ordered argument, in the same order as flatten\'s names: '
+         'Attr(name) for a name, Index(i) for a position; the Buildable is not modified (frame)',
+)
+
+contract('config.Buildable.__path_elements__', F, 'Buildable.__path_elements__', kind='inline')
+
+FD = 'fiddle/_src/daglish.py'
+contract('daglish.Attr.follow', FD, 'Attr.follow', kind='inline')
+contract('daglish.Index.follow', FD, 'Index.follow', kind='inline')
+
+FL8 = '@verif/lemmas/c08_paths.py'
+
+
+def _pf_req(c):
+  h = c.old
+  b = c['b']
+  g = bsig(h, b)
+  has0 = h.hasarr(ref(bfields(h, b)[1]))
+  t, f = z3.BoolVal(True), z3.BoolVal(False)
+  n = dkeys_cnt(oa_keys(g, has0, t, f, f, t))
+  from contracts.config import NoSentinel
+  k = z3.Const('pf_k', Val)
+  A = ref(bfields(h, b)[1])
+  return z3.And(BInv(h, b), ref(b) < h.alloc, is_VInt(c['i']), 0 <= ival(c['i']), ival(c['i']) < n,
+                # no stored argument value is one of fiddle's private sentinels (users cannot
+                # obtain the unset sentinel; NO_VALUE is never stored by the public API)
+                NoSentinel(h, bfields(h, b)[1]),
+                FA([k], z3.Implies(h.has(A, k), h.dget(A, k) != UNSET_SENTINEL), patterns=[h.has(A, k)]))
+
+
+contract(
+    'lemma.c08.path_follows_value', FL8, 'path_follows_value',
+    requires=_pf_req,
+    ensures=lambda c: c.res(0) == c.res(1),
+    result=('tuple', 2),
+    may_raise=(),
+    writes=('name', 'index', 'fn_or_cls', 'argument_names', 'argument_tags', 'argument_history'),
+    props=('C08',),
+    note='LEMMA over contracts (client in /verif/lemmas): for every Buildable b and every position i, '
+         'following the i-th path element of b.__path_elements__() from b yields exactly (is) the '
+         'i-th value of b.__flatten__() — the (value, path) pairs a traversal reports for the '
+         'children of a Buildable are sound; nothing that existed before is modified',
+)
